@@ -413,6 +413,11 @@ def run(ctx, report):
     from .c02 import range_rule
     range_rule(ctx, R6)
 
+    # ---------------------------------------------------------------- D9 the short immediate form of a 16-bit operand is offered back
+    R9 = report.rule('C03.D9', 'both entry points type the immediates before candidates are selected (the sign-extended imm8 form of a 16-bit operand is offered only to a typed immediate)', floor=2)
+    from .c19 import imm_typing_rule
+    imm_typing_rule(ctx, R9)
+
     # ---------------------------------------------------------------- D8 x87 register rows accept the size the parser gives st(i)
     R8 = report.rule('C03.D8', 'x87 st(i) rows: the operand size the parser gives st(i) passes the size check of the row (check_size_modif); implicit-operand lists agree with the rows\' operand counts', floor=40)
     csm = arch.method('x86allmncs', 'check_size_modif')
@@ -540,4 +545,5 @@ MUTANTS = [
     ('reg16-size', 'miasmx/core/parse_ad.py', "for name in x86_afs.reg_list16:\n    registers[name] = x86_afs.u16", "for name in x86_afs.reg_list16:\n    registers[name] = x86_afs.u32", 'C03.D1'),
     ('normalize-list', 'miasmx/arch/ia32_arch.py', "        if len(args) == 2 and name in float_arith_p:\n            args[1:2] = []", "        if len(args) == 2 and name in float_arith:\n            args[1:2] = []", 'C03.D3'),
     ('ad-size-kw', 'miasmx/arch/ia32_arch.py', 'x86_afs.f80:"TBYTE PTR "', 'x86_afs.f80:"TWORD PTR "', 'C03.D1'),
+    ('intel-untyped-imm', 'miasmx/arch/ia32_arch.py', "        x86_mn.arg_set_numpy_imm(args)\n        self.normalize_args(name, args, prefix)", "        self.normalize_args(name, args, prefix)", 'C03.D9'),
 ]
